@@ -5,7 +5,7 @@
     constraints; no reader, no guards-then-unchecked-reads, no failure outcome.
     The equality is on complete results: the accepted value and the remaining
     input, or the full error list. *)
-From RL Require Import Model.Decode Spec.SpecDecode Proofs.RefineAvp Proofs.RefineDecode Proofs.Framing Proofs.Inert.
+From RL Require Import Model.Decode Spec.SpecDecode Proofs.RefineAvp Proofs.RefineDecode Proofs.Framing Proofs.Inert Proofs.Transport.
 
 Theorem C05_decode_refines_spec : forall o b, bytes_ok b = true ->
   exists x, m_decode o b = Val x /\ obs_of x = s_decode o b.
@@ -17,6 +17,14 @@ Proof. exact avps_refines. Qed.
 Theorem C05_payload_refines_spec : forall t p,
   exists rest, m_decode_avp t p = Val (s_payload t p, rest).
 Proof. exact decode_avp_refines. Qed.
+
+(** acceptance and rejection coincide exactly *)
+Theorem C05_accepts_iff : forall o b m rest, bytes_ok b = true ->
+  (m_decode o b = Val (Ok m, rest) <-> s_decode o b = Ok (m, rest)).
+Proof. exact model_accepts_iff_spec. Qed.
+Theorem C05_rejects_iff : forall o b es, bytes_ok b = true ->
+  ((exists rest, m_decode o b = Val (Err es, rest)) <-> s_decode o b = Err es).
+Proof. exact model_rejects_iff_spec. Qed.
 
 (** Nothing outside the fields the specification names influences the result. *)
 Theorem C05_avp_header_bits_inert : forall o1 o1' rest,
@@ -57,3 +65,5 @@ Print Assumptions C05_short_tail_ignored.
 Print Assumptions C05_surplus_ignored.
 Print Assumptions C05_reserved_octets_inert.
 Print Assumptions C05_vendor_payload_inert.
+Print Assumptions C05_accepts_iff.
+Print Assumptions C05_rejects_iff.
